@@ -480,6 +480,8 @@ func (p *pool) exec(w *wproc, it queuedJob) *wproc {
 			dv.Cfg, dv.Family = t.N, -2
 		case "lpreconf":
 			dv.Cfg, dv.Family = t.N, -3
+		case "lpfrag":
+			dv.Cfg, dv.Family = t.N, -4
 		case "lpseq":
 			pi, k := o.mIdx/int64(len(lpAlphabet)), o.mIdx%int64(len(lpAlphabet))
 			if int(pi) < len(t.Prefix) {
